@@ -13,7 +13,7 @@ SITES = [
     # repetition count `int(n)`
     dict(gen="Slicing", name="sliceCount", file=_S, func="_validate_slice_thickness", select=("assign", "validated_slice_thickness", 0),
          path=["right"], inline={"n": _N}, params_map=_VT, params=["thickness", "slice_thickness"], ret="Int", modes=["rat"]),
-    dict(gen="Slicing", name="nudgeEps", file=_S, func="SliceIndexedAtoms.__init__", select=("augassign", "bin_edges", 0),
+    dict(gen="Slicing", name="nudgeEps", file=_S, func="SliceIndexedAtoms.__init__", select=("augassign", "bin_edges[:-1]", 0),
          params_map={}, params=[], ret="Rat", modes=["rat"]),
     dict(gen="Slicing", name="snapCond", file="abtem/potentials/iam.py", func="_FieldBuilderFromAtoms._prepare_atoms",
          select=("subscript_index", "atoms.positions", 0), path=["elts", 0],
